@@ -8,9 +8,17 @@ Import ListNotations.
 Require Import MS.Model.Fanout MS.Proofs.Fanout_facts.
 
 (** Full statement, clause 1: no runtime fault ("concurrent map iteration and map write", "concurrent map
-    writes", "send on closed channel") and no overlapping map write/iteration is reachable. *)
-Definition C26_no_fault : Prop := forall ks cs cc ls s,
+    writes", "send on closed channel") and no overlapping map write/iteration is reachable.
+    At the original HEAD this clause was refuted (F22a/b: unprotected map, close after delete while the sender
+    held the channel).  /repo now carries the fix (known_findings.txt `fixed:` lines): an RWMutex around the map
+    — read-held by the sender for its whole iteration, write-held by a stream to register and to
+    unregister+close — and a drainer so that a leaving stream never blocks the sender.  The model follows the
+    fixed code and keeps the runtime's fault detection, and the clause is a THEOREM for every schedule from
+    the empty server, any number of replicas, addresses possibly equal. *)
+Theorem C26_no_fault : forall ks cs cc ls s,
   run_labels (init ks cs cc) ls = Some s -> panic s = None /\ race s = false.
+Proof. exact no_fault. Qed.
+Print Assumptions C26_no_fault.
 
 (** clause 2: a replica that is connected in s1 and still connected and idle in a later quiescent state s2
     has received every TG committed in between. *)
@@ -26,42 +34,36 @@ Definition C26_delivery : Prop := forall ks cs cc ls1 ls2 s1 s2 r,
   quiescent_at s2 r = true ->
   forall t, In t (committed s2) -> ~ In t (committed s1) -> In t (nth r (delivered s2) []).
 
-Definition C26_full : Prop := C26_no_fault /\ C26_delivery.
+Definition C26_full : Prop :=
+  (forall ks cs cc ls s, run_labels (init ks cs cc) ls = Some s -> panic s = None /\ race s = false) /\ C26_delivery.
 
-(** F22a: a replica connects (inside mapassign) while the sender advances its iterator. *)
-Definition C26_witness_iter_write : list label :=
-  [GInsB 0; GInsE 0; Commit; SRecv; GInsB 1; SNext 10].
-(** F22b: replica 0's stream.Send fails while the sender holds its channel from the iteration:
-    delete, close, then the sender's send hits the closed channel. *)
-Definition C26_witness_closed_send : list label :=
-  [GInsB 0; GInsE 0; Commit; SRecv; SNext 10; SSend; SEnd; GRecv 0; Commit; SRecv; SNext 10;
-   GSend 0 false; GDelB 0; GDelE 0; GCloseL 0; SSend].
-(** two replicas connect at the same time *)
-Definition C26_witness_map_writes : list label := [GInsB 0; GInsB 1].
-
-Theorem C26_no_fault_refuted : ~ C26_no_fault.
+(** Regressions of F22a/b: the schedules that reached the faults before the fix are not schedules of the
+    fixed system any more.  (a) while a connecting replica is inside mapassign it holds the write lock, the
+    sender cannot start its iteration; (b) while the sender holds a channel from its iteration it holds the
+    read lock, the failing stream cannot delete/close — it can only drain; it closes after the sender is done. *)
+Definition C26_old_iter_write : list label := [GInsB 0; GInsE 0; Commit; SRecv; GInsB 1].
+Definition C26_old_closed_send : list label :=
+  [GInsB 0; GInsE 0; Commit; SRecv; SLock; SNext 10; SSend; SEnd; GRecv 0; Commit; SRecv; SLock; SNext 10; GSend 0 false].
+Example C26_old_witnesses_blocked :
+  (exists s, run_labels (init [10; 11] 500 500) C26_old_iter_write = Some s
+             /\ enabled SLock s = false /\ enabled (GInsB 0) s = false)
+  /\ (exists s, run_labels (init [10; 11] 500 500) C26_old_closed_send = Some s
+             /\ enabled (GDelB 0) s = false /\ enabled SSend s = true
+             /\ exists s', run_labels s [SSend; SEnd; GDrain 0; GDelB 0; GDelE 0; GCloseL 0] = Some s' /\ panic s' = None).
 Proof.
-  intros H.
-  destruct (run_labels (init [10; 11] 500 500) C26_witness_closed_send) as [s|] eqn:E; [|vm_compute in E; discriminate].
-  destruct (H _ _ _ _ _ E) as [H1 _]. vm_compute in E. inversion E; subst. discriminate H1.
+  split; eexists; (split; [vm_compute; reflexivity|]).
+  - vm_compute. auto.
+  - split; [vm_compute; reflexivity|]. split; [vm_compute; reflexivity|].
+    eexists. split; vm_compute; reflexivity.
 Qed.
-Print Assumptions C26_no_fault_refuted.
-
-(** each fault is reachable *)
-Theorem C26_faults_reachable :
-  (exists s, run_labels (init [10; 11] 500 500) C26_witness_iter_write = Some s /\ panic s = Some PMapIterWrite /\ race s = true)
-  /\ (exists s, run_labels (init [10; 11] 500 500) C26_witness_closed_send = Some s /\ panic s = Some PClosedSend)
-  /\ (exists s, run_labels (init [10; 11] 500 500) C26_witness_map_writes = Some s /\ panic s = Some PMapWrites).
-Proof. repeat split; eexists; (split; [vm_compute; reflexivity|]); vm_compute; auto. Qed.
-Print Assumptions C26_faults_reachable.
 
 (** F22c (same client address): replica 1 connects with the address replica 0 still holds; replica 0's
     failing Send then deletes replica 1's map entry; replica 1 stays connected and idle for ever but TG 1
     never reaches it. *)
 Definition C26_witness_same_addr_1 : list label :=
-  [GInsB 0; GInsE 0; Commit; SRecv; SNext 10; SSend; SEnd; GRecv 0; GInsB 1; GInsE 1].
+  [GInsB 0; GInsE 0; Commit; SRecv; SLock; SNext 10; SSend; SEnd; GRecv 0; GInsB 1; GInsE 1].
 Definition C26_witness_same_addr_2 : list label :=
-  [GSend 0 false; GDelB 0; GDelE 0; GCloseL 0; Commit; SRecv; SEnd].
+  [GSend 0 false; GDelB 0; GDelE 0; GCloseL 0; Commit; SRecv; SLock; SEnd].
 
 Theorem C26_delivery_refuted : ~ C26_delivery.
 Proof.
@@ -77,10 +79,10 @@ Qed.
 Print Assumptions C26_delivery_refuted.
 
 Theorem C26_refuted : ~ C26_full.
-Proof. intros [H _]. exact (C26_no_fault_refuted H). Qed.
+Proof. intros [_ H]. exact (C26_delivery_refuted H). Qed.
 Print Assumptions C26_refuted.
 
-(** Guarded statements: the stable system — all replicas of [ks] connected with pairwise distinct
+(** Delivery clause, guarded: the stable system — all replicas of [ks] connected with pairwise distinct
     addresses, no stream.Send fails (guard [stable] on the schedule; nobody connects since every stream
     is already connected). *)
 Theorem C26_stable_no_fault : forall ks cs cc ls s, NoDup ks -> forallb stable ls = true ->
@@ -117,13 +119,13 @@ Print Assumptions C26_stable_progress.
     capacities 1/1, after 4 commits the WAL loop is blocked and the ONLY enabled step is that replica's
     GSend, although replica 1 is healthy.  With the real capacities the same needs 500+500+2 commits. *)
 Definition C26_stalled_schedule : list label :=
-  [Commit; SRecv; SNext 10; SSend; SNext 11; SSend; SEnd; GRecv 0; GRecv 1; GSend 1 true;
-   Commit; SRecv; SNext 10; SSend; SNext 11; SSend; SEnd; GRecv 1; GSend 1 true;
-   Commit; SRecv; SNext 10; Commit].
+  [Commit; SRecv; SLock; SNext 10; SSend; SNext 11; SSend; SEnd; GRecv 0; GRecv 1; GSend 1 true;
+   Commit; SRecv; SLock; SNext 10; SSend; SNext 11; SSend; SEnd; GRecv 1; GSend 1 true;
+   Commit; SRecv; SLock; SNext 10; Commit].
 Example C26_stalled_replica_blocks :
   forallb stable C26_stalled_schedule = true /\
   exists s, run_labels (init_stable [10; 11] 1 1) C26_stalled_schedule = Some s
-    /\ enabled Commit s = false /\ enabled SRecv s = false /\ enabled SEnd s = false /\ enabled SSend s = false
+    /\ enabled Commit s = false /\ enabled SRecv s = false /\ enabled SLock s = false /\ enabled SEnd s = false /\ enabled SSend s = false
     /\ enabled (SNext 10) s = false /\ enabled (SNext 11) s = false
     /\ enabled (GRecv 0) s = false /\ enabled (GRecv 1) s = false /\ enabled (GSend 1 true) s = false
     /\ enabled (GSend 0 true) s = true.
@@ -131,8 +133,8 @@ Proof. split; [reflexivity|]. eexists. split; [vm_compute; reflexivity|]. vm_com
 
 (** Non-vacuity of the stable theorems: two replicas, two TGs, everything delivered in order. *)
 Definition C26_good_schedule : list label :=
-  [Commit; Commit; SRecv; SNext 11; SSend; SNext 10; SSend; SEnd; GRecv 0; GSend 0 true;
-   SRecv; SNext 10; SSend; GRecv 0; GRecv 1; SNext 11; SSend; SEnd; GSend 1 true; GSend 0 true; GRecv 1; GSend 1 true].
+  [Commit; Commit; SRecv; SLock; SNext 11; SSend; SNext 10; SSend; SEnd; GRecv 0; GSend 0 true;
+   SRecv; SLock; SNext 10; SSend; GRecv 0; GRecv 1; SNext 11; SSend; SEnd; GSend 1 true; GSend 0 true; GRecv 1; GSend 1 true].
 Example C26_nonvacuous :
   NoDup [10; 11] /\ forallb stable C26_good_schedule = true /\
   exists s, run_labels (init_stable [10; 11] 500 500) C26_good_schedule = Some s
